@@ -13,14 +13,20 @@ Fixpoint list_eqb {A} (e : A -> A -> bool) (a b : list A) : bool :=
   | _, _ => false
   end.
 
-Definition case_C19 : Type := (document * vars * Z * option str) * obs19.
+(* one call of a rule instance *)
+Definition call_C19 : Type := (document * vars * Z * option str) * obs19.
+(* a case is a history of calls on ONE rule instance and ONE parsed document object:
+   the model is a pure function of each call's own arguments, so every call must agree *)
+Definition case_C19 : Type := list call_C19.
 
 Definition model_C19 (i : document * vars * Z * option str) : outcome (list (N * Z)) :=
   let '(d, vs, limit, filter) := i in max_depth_rule big_fuel limit filter d vs.
 
-Definition agree_C19 (c : case_C19) : bool :=
+Definition agree_call_C19 (c : call_C19) : bool :=
   match model_C19 (fst c), snd c with
   | Ok l, ObsFlagged l' => list_eqb pair_eqb l l'
   | Rejected _ _, ObsCoercionError => true
   | _, _ => false
   end.
+
+Definition agree_C19 (c : case_C19) : bool := forallb agree_call_C19 c.
